@@ -60,12 +60,22 @@ func (rows *leveldbRows) ReplaceOrInsert(r *btpb.Row) {
 	}
 }
 
+// Clear removes all rows in one atomic batch. The database stays open: a scan that has handed over
+// the table lock keeps reading from its snapshot. Closing and re-creating the database here pulled
+// it from under such a scan, which then failed with "leveldb/table: reader released".
 func (rows *leveldbRows) Clear() {
-	if err := rows.db.Close(); err != nil {
+	batch := new(leveldb.Batch)
+	it := rows.db.NewIterator(nil, nil)
+	for ok := it.First(); ok; ok = it.Next() {
+		batch.Delete(it.Key())
+	}
+	it.Release()
+	if err := it.Error(); err != nil {
 		panic(err)
 	}
-	verifYield("disk.clear.closed")
-	rows.db = rows.newFunc(true)
+	if err := rows.db.Write(batch, nil); err != nil {
+		panic(err)
+	}
 }
 
 func (rows *leveldbRows) Close() {
